@@ -1,6 +1,6 @@
 (* C11 — watchdog: idle sends one DWR, DWA restores ready, silence closes the connection
    Statements copied from the proof files; each is closed by `exact`. *)
-From DV Require Prelude.Base Model.Ids Proofs.IdsP Model.Node Proofs.NodeA.
+From DV Require Prelude.Base Model.Ids Proofs.IdsP Model.Node Proofs.NodeA Proofs.NodeB Proofs.NodeC Proofs.NodeD Proofs.NodeF Proofs.NodeG Proofs.NodeH.
 From Coq Require String List Lia Bool Arith ZArith.
 
 Module FromNodeA.
@@ -91,6 +91,39 @@ Theorem C11_timers_idempotent n cid n1 o1 :
 Proof. exact (@NodeA.C11_timers_idempotent n cid n1 o1). Qed.
 End FromNodeA.
 
+Module FromNodeH.
+Import DV.Prelude.Base DV.Model.Node DV.Proofs.NodeA DV.Proofs.NodeC DV.Proofs.NodeH.
+Local Open Scope Z_scope.
+
+(* C11 (one step): unless the event is a read of a DWA on cid, a quiet connection cid (absent, or waiting for its
+   DWA, or being torn down) stays quiet and gets no DWR; and a step that queues a DWR on cid leaves it quiet *)
+Theorem C11_step_one_dwr cid n ds e :
+  conns_fresh n -> app_ok e -> ~ dwa_read cid e ->
+  (W cid n -> W cid (fst (step n ds e)) /\ ~ List.Exists (isdwr cid) (snd (step n ds e))) /\
+  (List.Exists (isdwr cid) (snd (step n ds e)) -> W cid (fst (step n ds e))).
+Proof. exact (@NodeH.C11_step_one_dwr cid n ds e). Qed.
+
+(* C11: from a state in which connection cid is quiet (absent for good, waiting for its DWA, or being torn down),
+   either some later read on cid holds a DWA, or no DWR is ever queued on cid and cid stays quiet *)
+Theorem C11_history_quiet_until_dwa cid : forall evs n,
+  conns_fresh n -> W cid n ->
+  (forall x, List.In x (strace n evs) -> app_ok (fst (snd x))) ->
+  (exists x, List.In x (strace n evs) /\ dwa_read cid (fst (snd x))) \/
+  (W cid (fst (run n evs)) /\ conns_fresh (fst (run n evs)) /\
+   forall x, List.In x (strace n evs) -> W cid (fst x) /\ ~ List.Exists (isdwr cid) (snd (snd x))).
+Proof. exact (@NodeH.C11_history_quiet_until_dwa cid). Qed.
+
+(* C11: between two watchdog requests queued on the same connection there is a read of a DWA on that connection
+   (the reading event may be the one that queues the first or the second DWR) *)
+Theorem C11_history_one_dwr n0 evs cid pre x1 mid x2 post :
+  conns_fresh n0 ->
+  strace n0 evs = (pre ++ x1 :: mid ++ x2 :: post)%list ->
+  (forall x, List.In x (x1 :: mid ++ [x2])%list -> app_ok (fst (snd x))) ->
+  List.Exists (isdwr cid) (snd (snd x1)) -> List.Exists (isdwr cid) (snd (snd x2)) ->
+  exists x, List.In x (x1 :: mid ++ [x2])%list /\ dwa_read cid (fst (snd x)).
+Proof. exact (@NodeH.C11_history_one_dwr n0 evs cid pre x1 mid x2 post). Qed.
+End FromNodeH.
+
 Print Assumptions FromNodeA.check_timers_unfold.
 Print Assumptions FromNodeA.C11_peer_overrides.
 Print Assumptions FromNodeA.C11_idle_sends_one.
@@ -100,3 +133,6 @@ Print Assumptions FromNodeA.C11_silence_closes.
 Print Assumptions FromNodeA.C11_no_dwr_while_busy.
 Print Assumptions FromNodeA.C11_dwr_answered.
 Print Assumptions FromNodeA.C11_timers_idempotent.
+Print Assumptions FromNodeH.C11_step_one_dwr.
+Print Assumptions FromNodeH.C11_history_quiet_until_dwa.
+Print Assumptions FromNodeH.C11_history_one_dwr.
